@@ -8,7 +8,11 @@ import (
 	"strings"
 	"sync"
 	"sync/atomic"
+	"time"
 
+	"github.com/scrapli/scrapligo/driver/generic"
+	"github.com/scrapli/scrapligo/driver/options"
+	"github.com/scrapli/scrapligo/transport"
 	"github.com/scrapli/scrapligo/util"
 
 	"verif/harness/sim"
@@ -24,7 +28,13 @@ func init() {
 }
 
 type c20Case struct {
-	Kind    string   `json:"kind"` // sequential | concurrent
+	Kind string `json:"kind"` // sequential | concurrent | open
+	// open: the library's own use of the put-back: Channel.Open returns to the queue what the
+	// in-channel authentication consumed, while the device keeps talking behind the prompt; Banner =
+	// lines in front of the prompt, After = lines behind it, Seg = bytes per transport read
+	Banner  int      `json:"banner,omitempty"`
+	After   int      `json:"after,omitempty"`
+	Seg     int      `json:"seg,omitempty"`
 	History []string `json:"history,omitempty"`
 	// concurrent: producer enqueues N chunks; consumer runs Ops cyclically until it has everything
 	N     int      `json:"n,omitempty"`
@@ -128,6 +138,14 @@ func runC20(seed uint64, n int, tier string) {
 	for i := 0; i < n; i++ {
 		cases = append(cases, genC20(rng.Fork(), i, tier))
 	}
+	for _, banner := range []int{1, 40, 400} {
+		for _, seg := range []int{16, 700} {
+			cases = append(cases, &c20Case{Kind: "open", Banner: banner, After: 300, Seg: seg})
+		}
+	}
+	for _, banner := range []int{2000, 8000, 8000, 8000} {
+		cases = append(cases, &c20Case{Kind: "open", Banner: banner, After: 20, Seg: 0})
+	}
 	// concurrent cases change GOMAXPROCS: run them one at a time; sequential ones in parallel
 	var seq, conc []int
 	for i, c := range cases {
@@ -148,7 +166,100 @@ func runC20(seed uint64, n int, tier string) {
 	}
 }
 
+// c20Banner is what the device of an "open" case says, in order: the banner, the prompt, and more
+// lines right behind it.
+type c20Banner struct{ all []byte }
+
+func (d *c20Banner) Start() [][]byte        { return [][]byte{d.all} }
+func (d *c20Banner) Feed(b []byte) [][]byte { return nil }
+
+func runC20Open(id string, c *c20Case) {
+	defer watchCase(id, c)()
+	cs := &Case{ID: id, Kind: "open", HypOK: true, Nontrivial: true, Replay: c}
+	var sb strings.Builder
+	for i := 0; i < c.Banner; i++ {
+		fmt.Fprintf(&sb, "banner line %04d: authorised access only\n", i)
+	}
+	sb.WriteString("router1#")
+	for i := 0; i < c.After; i++ {
+		fmt.Fprintf(&sb, "\n%%LOG-%04d: interface state changed", i)
+	}
+	tail := ""
+	if c.Seg == 0 {
+		// the banner arrives in one read; the lines behind the prompt are released the moment the
+		// authentication has taken the banner off the queue (it is still looking through it then)
+		full := sb.String()
+		k := strings.Index(full, "router1#") + len("router1#")
+		sb.Reset()
+		sb.WriteString(full[:k])
+		tail = full[k:]
+	}
+	produced := sb.String() + tail
+	tr := sim.NewTransport(&c20Banner{all: []byte(sb.String())})
+	tr.DefaultSeg = c.Seg
+	at := &sim.AuthTransport{Transport: tr, SSH: &transport.SSHArgs{}, Kind: transport.InChannelAuthSSH}
+	d, err := generic.NewDriver("sim", options.WithCustomTransport(at), options.WithReadDelay(time.Microsecond),
+		options.WithTimeoutOps(2*time.Second), options.WithAuthUsername("u"), options.WithAuthPassword("p"))
+	if err != nil {
+		cs.Oracle = "driver construction failed: " + err.Error()
+		emit(cs)
+		return
+	}
+	if tail != "" {
+		go func() {
+			seen := false
+			dl := time.Now().Add(2 * time.Second)
+			for time.Now().Before(dl) {
+				n := d.Channel.Q.GetDepth()
+				if n > 0 {
+					seen = true
+				} else if seen {
+					break
+				}
+			}
+			tr.Inject(append(sim.Atoms([]byte(tail)), nil))
+		}()
+	}
+	if err := d.Open(); err != nil {
+		cs.Oracle = "open failed: " + err.Error()
+		cs.Sig = "C20:open-failed"
+		emit(cs)
+		return
+	}
+	defer d.Close()
+	var got []byte
+	dl := time.Now().Add(3 * time.Second)
+	for len(got) < len(produced) && time.Now().Before(dl) {
+		b, rerr := d.Channel.ReadAll()
+		if rerr != nil {
+			break
+		}
+		got = append(got, b...)
+		if b == nil {
+			time.Sleep(200 * time.Microsecond)
+		}
+	}
+	cs.Obs = fmt.Sprintf("%d of %d bytes", len(got), len(produced))
+	if string(got) != produced {
+		i := 0
+		for i < len(got) && i < len(produced) && got[i] == produced[i] {
+			i++
+		}
+		end := i + 60
+		if end > len(got) {
+			end = len(got)
+		}
+		cs.Oracle = fmt.Sprintf("after Open the channel yields something else than what the device sent, in order: %d of %d bytes, first difference at byte %d: got %q", len(got), len(produced), i, got[i:end])
+		cs.Sig = "C20:open-put-back-order"
+	}
+	emit(cs)
+}
+
 func runC20Case(id string, c *c20Case) {
+	if c.Kind == "open" {
+		runC20Open(id, c)
+		return
+	}
 	defer watchCase(id, c)()
 	cs := &Case{ID: id, Kind: c.Kind, HypOK: true, Replay: c}
 	if c.Kind == "sequential" {
